@@ -5,8 +5,8 @@
    arguments the contract depends on, and what was observed (declared
    npartitions / divisions, every partition computed through its own key,
    compute() of the whole compared with them).  The source partitioning, the
-   shuffle method, max_branch, split_out and the key dtype are logged for the
-   reader only.
+   shuffle method, max_branch, split_out, the key dtype and the PRE-STAGE the
+   source went through (field pre, see Shuffle!PreOK) do not enter the verdict.
 
      op = "shuffle"   rows, on, nout, ign, obs
      op = "sort"      rows, by, asc, naf, ign, obs
@@ -15,11 +15,14 @@
      op = "unique"    rows, obs (values)        op = "nunique"  rows, dropna, obs (count)          *)
 EXTENDS Shuffle, TraceIO
 
+\* r.pre: what the source went through before the operation (Shuffle!PreOK is the harness' obligation); the verdict does
+\* not look at it otherwise.  r.ign is TRUE when ignore_index=True was passed or the pre-stage replaced the index.
 Bad(r) ==
+  IF ~PreOK(r.rows, r.pre) THEN {"BadCase"} ELSE
   CASE r.op = "shuffle"  -> ShuffleBad(r.rows, r.on, r.nout, r.ign, r.obs)
     [] r.op = "sort"     -> SortBad(r.rows, r.by, r.asc, r.naf, r.ign, r.obs)
     [] r.op = "setindex" -> SetIndexBad(r.rows, r.drop, r.udivs, r.sortit, r.obs)
-    [] r.op = "dedup"    -> DedupBad(r.rows, r.subset, r.keep, r.obs)
+    [] r.op = "dedup"    -> DedupBad(r.rows, r.subset, r.keep, r.pre.how # "none", r.obs)
     [] r.op = "unique"   -> UniqueBad(r.rows, r.obs)
     [] r.op = "nunique"  -> NUniqueBad(r.rows, r.dropna, r.obs)
     [] OTHER -> {"UnknownOp"}
